@@ -1,6 +1,7 @@
 package props
 
 import (
+	"bytes"
 	"encoding/json"
 	"fmt"
 	"image/color"
@@ -132,6 +133,13 @@ func raceRequests(d *raceDesc) [][]Req {
 	r := rngFor(d.Seed, "race")
 	qrDeg := qrDegreeReqs(r)
 	dmDeg := dmDegreeReqs(r)
+	rejected := []Req{
+		{Fam: "codabar", S: []byte("A12x3B"), Scheme: -1}, {Fam: "codabar", S: []byte("no"), Scheme: -1}, {Fam: "code93", S: []byte("lower a"), I: []int64{1, 0}, Scheme: -1},
+		{Fam: "code93", S: []byte("caf\u00e9"), I: []int64{0, 1}, Scheme: -1}, {Fam: "code39", S: []byte("a*b"), I: []int64{1, 0}, Scheme: -1}, {Fam: "code39", S: []byte("\u00e9"), I: []int64{0, 1}, Scheme: -1},
+		{Fam: "code128", S: []byte("\u00e9x"), Scheme: -1}, {Fam: "code128nocs", S: nil, Scheme: -1}, {Fam: "2of5", S: []byte("12a4"), I: []int64{1}, Scheme: -1}, {Fam: "2of5", S: []byte("123"), I: []int64{1}, Scheme: -1},
+		{Fam: "ean", S: []byte("1234567x"), Scheme: -1}, {Fam: "ean", S: []byte("12345671"), Scheme: -1}, {Fam: "pdf417", S: []byte("x"), I: []int64{9}, Scheme: -1},
+		{Fam: "aztec", S: []byte("x"), I: []int64{33, 40}, Scheme: -1}, {Fam: "datamatrix", S: bytes.Repeat([]byte{0xfe}, 900), Scheme: -1}, {Fam: "qr", S: []byte("12a"), I: []int64{0, 1}, Scheme: -1},
+	}
 	fixed := []Req{
 		{Fam: "qr", S: []byte("hello world"), I: []int64{1, 0}, Scheme: -1}, // Auto: numeric fails, alphanumeric fails (producer break path), byte ok
 		{Fam: "qr", S: []byte("HELLO WORLD"), I: []int64{0, 0}, Scheme: -1},
@@ -151,7 +159,9 @@ func raceRequests(d *raceDesc) [][]Req {
 		var l []Req
 		l = append(l, focusReqs(d.Focus, gr)...)
 		if d.Micro {
+			l = append(l, rejected[gr.Intn(len(rejected))], rejected[gr.Intn(len(rejected))])
 			l = append(l, focusReqs(d.Focus, gr)...)
+			l = append(l, rejected[gr.Intn(len(rejected))])
 			l = append(l, focusReqs(d.Focus, gr)...)
 			lists[g] = l
 			continue
@@ -173,6 +183,9 @@ func raceRequests(d *raceDesc) [][]Req {
 			}
 			if i%4 == 1 {
 				l = append(l, pool[gr.Intn(len(pool))])
+			}
+			if i%2 == 0 {
+				l = append(l, rejected[gr.Intn(len(rejected))])
 			}
 		}
 		for len(l) < d.PerG {
@@ -331,6 +344,8 @@ func auxRaceWork(args []string) int {
 			defer wg.Done()
 			gr := rand.New(rand.NewSource(d.Seed*7 + int64(g)))
 			my := make([]rec, 0, len(lists[g])+8)
+			var heldErr error
+			var heldText string
 			<-start
 			for i, q := range lists[g] {
 				var rc rec
@@ -343,6 +358,13 @@ func auxRaceWork(args []string) int {
 					rc.panic = fmt.Sprintf("%v\n%s", o.panic, o.stack)
 				case o.err != nil || o.bc == nil:
 					rc.digest = "rejected"
+					if o.err != nil {
+						// errors are results too: read now and again a few calls later
+						if heldErr != nil && heldErr.Error() != heldText {
+							probs[g] = append(probs[g], fmt.Sprintf("retained error: an error returned earlier read %q and now reads %q", heldText, heldErr.Error()))
+						}
+						heldErr, heldText = o.err, o.err.Error()
+					}
 				default:
 					rc.digest = digest(o.bc)
 				}
